@@ -44,6 +44,7 @@ def _c04():
         ("R-NAN-FRONT", "each ZADD/ZINCRBY front end (direct handler, script-side parser) tests every score it parses for NaN itself, before the engine is called for the first pair", rules_zset.rule_nan_frontends),
         ("R-BOUNDS-USED", "an engine method taking the two score bounds answers from a call that received both (ZCOUNT = |ZRANGEBYSCORE| for infinite and reversed bounds too), with the empty answer, or behind exact tests of both bounds", rules_zset.rule_bounds_used),
         ("R-SCORE-EXTREMES", "no score-range call receives the finite extremes f64::MIN / f64::MAX as a bound (infinities are scores: `everything` is -inf..+inf or an unfiltered walk)", rules_zset.rule_score_extremes),
+        ("R-RANGE-STOP", "index ranges: the stop index is never clamped from below (a stop below -len is the empty range) and a rank-range read is dominated by a start-versus-length test in both directions", rules_coll.rule_range_stop("C04")),
         ("R-SKIP-PAIR", "key index, node links and length stay in step: index insert -> node link, re-score unlinks before linking, index remove -> unlink, length written only by link/unlink", rules_zset.rule_skip_pair),
         ("R-EMPTY", "removing the last member removes the key", rules_cmd.rule_empty),
         ("R-ZSET-LATEST", "an engine method that writes scores returns success only after handing the score to SkipList::insert, or after an exact == showed the stored score already equals it (each member holds its latest score)", rules_zset.rule_latest),
@@ -269,6 +270,7 @@ def _c03():
         ("R-SETALG-MISSING", "in the operand loops of SUNION/SDIFF/SINTER a later key that does not exist is the empty set: union and difference go on with the next key, the intersection ends empty", rules_coll.rule_setalg_missing),
         ("R-REMOVE-ITER", "a loop that removes at an ascending index does not advance the index in the iteration that removed (adjacent matches would be skipped: LREM)", rules_coll.rule_remove_iter),
         ("R-IDX-SINGLE", "behind LINDEX / LSET the index of the element access has no clamping / wrapping step on its value flow unless a comparison of the index against the length dominates the access (out-of-range is refused, not moved to the nearest element)", rules_coll.rule_idx_single),
+        ("R-RANGE-STOP", "index ranges: the stop index is never clamped from below (a stop below -len is the empty range) and a rank-range read is dominated by a start-versus-length test in both directions", rules_coll.rule_range_stop("C03")),
     ]
 
 
